@@ -55,6 +55,8 @@ type DKGProposalConfirmationErrorRequest struct {
 	ParticipantId int
 	Error         *FSMError
 	CreatedAt     time.Time
+	// BatchID is set when the failed operation was the signing of a batch
+	BatchID string `json:",omitempty"`
 }
 
 type FSMError struct {
